@@ -144,6 +144,14 @@ Theorem agree_strict_weak : forall v out, agree_C15 true v out = true -> agree_C
 Proof. exact agree_strict_weak. Qed.
 Print Assumptions agree_strict_weak.
 
+(** code-point mode (all clusters single code points): the text-level membership is the
+    cluster-level one, so [check_run] applies to exactly what the runner compares *)
+Theorem cp_agree_strict : forall c s wv exv,
+  cp_cfg c -> singles (s_w s) -> singles (v_cls wv) ->
+  step_agree false c s (L [wv; exv]) = true -> step_agree true c s (L [wv; exv]) = true.
+Proof. exact step_agree_cp. Qed.
+Print Assumptions cp_agree_strict.
+
 (** reach_sound: the states the model lists for the corrupt_spelling stream ([reach], k chained
     calls from one word) are ends of chains of exactly k calls, so [chain_inv] applies to them *)
 Theorem reach_sound : forall c ci k w ex l s',
@@ -233,3 +241,18 @@ Example agree_witness :
     (L [L [L [L [L [L [L [I 120]; I 1]]]; L []]; L [L []; L []]; L [L []; L []]; L [L []; L []]];
         L [L [L [L [I 120]; L [I 97]; L [I 98]]; L [I 0; I 2]]]]) = true.
 Proof. vm_compute. reflexivity. Qed.
+
+(** the code-point premise of [cp_agree_strict] *)
+Example cp_witness : cp_cfg c_ex /\ singles [[97]; [98]]%N.
+Proof.
+  split; [split|]; [intros e H; cbn in H .. | repeat constructor].
+  - repeat (destruct H as [<-|H]; [repeat constructor|]). destruct H.
+  - repeat (destruct H as [<-|H]; [repeat constructor|]). destruct H.
+Qed.
+
+(** [reach] on a concrete word: the states after two chained calls on "a" with the class
+    oracle "a is alphabetic" (insert "x" or "" at the start, then what is still allowed) *)
+Example reach_witness :
+  exists l, reach c_ex [([97]%N, true, false)] 2 [([[97]]%N, [])] = Some l /\
+            In ([[120]; [97]]%N, [0]) l /\ length l = 24.
+Proof. eexists. split; [vm_compute; reflexivity|]. split; [vm_compute; tauto | reflexivity]. Qed.
